@@ -81,6 +81,8 @@ impl Renamer {
         source_name: &[u8],
         match_suffix: bool,
     ) -> Result<(), Error> {
+        #[cfg(feature = "verif_hooks")]
+        crate::verif_hooks::step("copy_with_replaced_name");
         let mut name = Vec::with_capacity(DNS_MAX_HOSTNAME_LEN);
         let _compressed_name_len = Compress::copy_uncompressed_name(&mut name, packet, offset);
         let replaced_name = Self::replace_raw(&name, target_name, source_name, match_suffix)?;
